@@ -382,7 +382,8 @@ class Sim:
                 return ("liberr", name)
             fr = lib_frame(e)
             where = fr[0] if fr else "?"
-            container = where in ("iwork.py", "iwafile.py", "containers.py")
+            container = where in ("iwork.py", "iwafile.py") or (
+                where == "containers.py" and fr[1] in ("__init__", "store_object", "store_file", "allowed_format", "allowed_version"))
             if container:
                 key = {"exc": name, "in": f"{fr[0]}:{fr[1]}"}
                 self.violation("C17.escape", key, f"opening {context}: {name}: {e} escaped from {fr[0]}:{fr[1]}")
@@ -751,7 +752,7 @@ def op_save(sim: Sim, a) -> str:
 
     world = sim.world
     path = sim.slot_path(slot.name)
-    if slot.status in ("torn", "corrupt") and a.get("wipe", True):
+    if slot.status in ("torn", "corrupt", "foreign") and a.get("wipe", True):
         world.remove(path)
         slot.status = "absent"
     if slot.status == "good":
@@ -785,7 +786,7 @@ def op_save(sim: Sim, a) -> str:
             raise
         except Exception as e:  # noqa: BLE001
             name = type(e).__name__
-            if name == "FileFormatError" and package and prior_status in ("torn", "corrupt"):
+            if name == "FileFormatError" and package and prior_status in ("torn", "corrupt", "foreign"):
                 # documented: refusing to write a package into a folder that is not a Numbers document
                 sim.log.append([sim.step_no, "save_refused", slot.name])
                 return "refused"
@@ -848,6 +849,8 @@ def op_restart(sim: Sim, a) -> str:
     if not sim.real:
         if slot.status != "good":
             return "torn"
+        if slot.model is None:
+            return "torn"
         ds = DocState(None, slot.model.clone())
         _place_doc(sim, ds, a, replace)
         return "ok"
@@ -855,11 +858,18 @@ def op_restart(sim: Sim, a) -> str:
     if slot.status != "good":
         sim.stats["restart_after_torn"] += 1
         res = sim.open_classified(path, {"slot": slot.name, "status": slot.status})
+        oc = sim.stats.setdefault("damaged_open", {})
+        k = res[0] if res[0] != "liberr" else res[1]
+        oc[k] = oc.get(k, 0) + 1
         if res[0] == "opened":
             sim.stats["torn_opened"] += 1
-            return "torn_opened"
+            if a.get("adopt") and slot.status == "foreign":
+                ds = DocState(res[1], sim.model_from_doc(res[1], slot.name))
+                _place_doc(sim, ds, a, replace)
+                return "foreign_opened"
+            return slot.status + "_opened"
         sim.stats["torn_open_liberr"] += 1
-        return "torn_" + res[0]
+        return slot.status + "_" + k
     from numbers_parser import Document
 
     try:
